@@ -19,10 +19,20 @@ def prot_names(obj):
     return assigned, unassigned
 
 
-def build(spec, position, data, objattr, names):
-    """A fresh attr-dict (root / nested in dict / nested in a list) holding `data`; returns (resource, root, target)."""
+def build(spec, position, data, objattr, names, stale=None):
+    """A fresh attr-dict (root / nested in dict / nested in a list) holding `data`; returns (resource, root, target).
+    stale: the object first loads this other content, then an outside writer stores `data` (Attr!Ext)."""
     res = spec.new_resource()
     content = {names[k]: v for k, v in data.items()}
+    if stale is not None:
+        res.write_raw(copy.deepcopy(wrap(position, {names[k]: v for k, v in stale.items()})))
+        root = res.new_object()
+        target = root if position == "root" else (root["n"] if position == "in_dict" else root["l"][1])
+        target()                                            # the stale content is now cached in memory
+        res.write_raw(copy.deepcopy(wrap(position, content)))   # outside writer
+        for k, v in objattr.items():
+            setattr(target, names[k], f"user{v}")
+        return res, root, target
     if position == "root":
         res.write_raw(copy.deepcopy(content))
         root = res.new_object()
@@ -48,7 +58,16 @@ def wrap(position, content):
     return {"l": [0, content]}
 
 
-def run_edge(spec, position, edge, names):
+def stale_of(data, rnd):
+    """Another content over the same abstract names (values flipped, a key dropped or added)."""
+    st = {k: (3 - v if rnd.random() < 0.7 else v) for k, v in data.items() if rnd.random() < 0.85}
+    for k in ("ord", "prot", "dun", "cls"):
+        if k not in data and rnd.random() < 0.3:
+            st[k] = rnd.choice((1, 2))
+    return st
+
+
+def run_edge(spec, position, edge, names, stale=None):
     problems = []
     data, objattr = edge["data"], edge["objattr"]
     if isinstance(data, list):
@@ -60,7 +79,7 @@ def run_edge(spec, position, edge, names):
     name = names[n_abs]
     if want == "object" and n_abs == "dun":
         want = "AttributeError"      # nothing of that name on the object
-    res, root, target = build(spec, position, data, objattr, names)
+    res, root, target = build(spec, position, data, objattr, names, stale=stale)
     try:
         internals0 = {k: id(v) for k, v in vars(target).items()}
         v_new = 1
@@ -133,23 +152,23 @@ def _job(args):
     env.install()
     spec = env.spec_by_name(spec_name)
     out = []
-    for (position, edge, names) in jobs:
+    for (position, edge, names, stale) in jobs:
         try:
-            pr = run_edge(spec, position, edge, names)
+            pr = run_edge(spec, position, edge, names, stale=stale)
         except Exception:  # noqa: BLE001
             import traceback
             pr = ["HARNESS " + traceback.format_exc(limit=5)]
         for p in pr:
             out.append({"cls": spec_name, "position": position, "op": f"{edge['last']['how']}-{edge['last']['kind']}",
                         "name": names[edge["last"]["name"]], "nameclass": edge["last"]["name"],
-                        "aspect": "harness" if p.startswith("HARNESS") else "attr", "detail": p, "edge": edge, "names": names,
+                        "aspect": "harness" if p.startswith("HARNESS") else "attr", "detail": p, "edge": edge, "names": names, "stale": stale,
                         "replay_fn": ["chk_attr", "replay"]})
     return out
 
 
 def replay(prop, case):
     env.install()
-    pr = run_edge(env.spec_by_name(case["cls"]), case["position"], case["edge"], case["names"])
+    pr = run_edge(env.spec_by_name(case["cls"]), case["position"], case["edge"], case["names"], stale=case.get("stale"))
     if pr:
         print(f"VIOLATION property={prop} replay={__import__('os').environ.get('VERIF_REPLAY_PATH', '-')} {pr[0]}")
         return 1
@@ -233,14 +252,16 @@ def check_C18(tier):
     run.cov["rule"] = ("Attr.tla: names x {get,set,del} x {attribute, item} from every reachable small state, enumerated "
                        "by TLC and executed with concrete names of each class (ordinary incl. '_id', a non-identifier; every "
                        "member of _PROTECTED_KEYS; dunders; public method names) on the 6 attribute-access dict classes at "
-                       "depth 0, 1 (in a dict) and 2 (in a list): result / exception class, backend content, collection "
+                       "depth 0, 1 (in a dict) and 2 (in a list), 45 % of them after the object had cached OTHER content and an outside "
+                       "writer stored the pre-state (Attr!Ext): result / exception class, backend content, collection "
                        "content and identity of the object's attributes; reflection: every instance attribute present after "
                        "construction must be protected; type walk of the in-memory tree (all 18 classes) after random "
                        "operation / reload / buffered-context sequences")
     run.assumptions += ["writing an attribute that is an existing class attribute (method name) is unspecified and not asserted",
                         "Redis/MongoDB/Zarr on fakes"]
     cfg = tlc.cfg_text(constants={"Names": '{"ord", "prot", "dun", "cls"}', "Class": "<- MCClass"},
-                       properties=["C18_ItemsNeverTouchObject", "C18_ObjectNamesNeverTouchData", "C18_AttrEqualsItem"],
+                       properties=["C18_ItemsNeverTouchObject", "C18_ObjectNamesNeverTouchData", "C18_AttrEqualsItem",
+                                   "C18_OutsideWriteNeverTouchesObject"],
                        action_constraints=["Export"], view="view")
     res = tlc.run("MC_Attr", cfg, name="attr", timeout=600)
     if not res.ok:
@@ -274,7 +295,8 @@ def check_C18(tier):
                     names["prot"] = rnd.choice(sorted(type(probe)._PROTECTED_KEYS))   # item access with ANY protected name
                 if lab["name"] == "prot" and lab["how"] == "attr" and lab["kind"] == "get" and "prot" not in (e["objattr"] if isinstance(e["objattr"], dict) else {}):
                     names["prot"] = rnd.choice(assigned)
-                js.append((position, e, names))
+                d_ = e["data"] if isinstance(e["data"], dict) else {}
+                js.append((position, e, names, stale_of(d_, rnd) if rnd.random() < 0.45 else None))
                 run._distinct.add((val.canon(e["last"]), names[lab["name"]]))
             for ch in common.chunks(js, 3):
                 jobs.append((spec.name, ch))
